@@ -31,9 +31,20 @@ FIXED = [
  (["C01", "C10"], "afa69d5", "D29", "ProductDomain density sampling ignored the parameters in volume() (AssertionError for parameter dependent factors) and rounded down to zero points (crash); found by the C01 monitor"),
  (["C05", "C01"], "5c6276a", "D40", "Translate/Rotate._contains dropped parameters stored in the points: LHS/Gaussian samplers and __contains__ on a translated parameter dependent domain raised; found by the C01 monitor"),
  (["C10", "C01"], "7f07136", "D41", "ProductDomain._get_volume returned shape (k,) instead of (k,1) for dependent products: sampling on the product boundary with parameters broadcast to a matrix and failed; found by the C01 monitor"),
+ (["C02"], "26e2b4c", "D42", "len() of Product/Concat/Append samplers after a call with k parameter rows was k times the rows of a parameter-free call; found by the C02 monitor"),
+ (["C02"], "3cd611f", "D43", "AppendSampler.sample_points(params) raised AssertionError (both inner outputs carry the parameter columns); found by the C02 monitor"),
+ (["C02"], "dbaee4a", "D38", "len() of a density sampler with a filter was the unfiltered count, not the number of rows the call returned; found by the C02 monitor"),
+ (["C01"], "6474dd7", "D44", "ShapelyPolygon.sample_random_uniform returned its points triangle by triangle; with several parameter rows the row-wise rejection loop of cut/intersection never terminated; found by the C01 monitor (progress budget)"),
+ (["C10"], "bc5e98c", "D45", "ShapelyBoundary density sampling computed the number of points from the polygon's area instead of the boundary length; found by the C10 monitor"),
+ (["C10"], "128d3dc", "D46", "ShapelyPolygon.sample_grid(d=...) returned more than ceil(d*area) points; found by the C10 monitor"),
 ]
 
 OPEN = [
+ {"id": "KF-C18-dependent-product-box", "property": "C18", "status": "open", "design_item": "D24b",
+  "match": {"kind": ["point_outside_box", "normalized_outside_unit_box"], "dep_product": True},
+  "what": "bounding_box of a ProductDomain whose first factor depends on the second is estimated from 10 random samples of the second factor (the library warns that it is an approximation): domain points lie up to a few percent of the size outside the box, a NormalizationLayer built from it maps them outside [-1,1]^d",
+  "witness": "Triangle(x; origin/corners shifted by 0.62*s) * Interval(s in [-0.44, 1.22]): box x-range [-0.53, 0.77], twin and own samples reach x = -0.68 (see evidence sample / replay of C18 seed 0)",
+  "why_not_fixed": "an exact box needs the extreme values of the first factor's box over the whole second factor; no small local repair (set_bounding_box exists for exactly this purpose)"},
 ]
 
 def main():
